@@ -470,6 +470,13 @@ fn main()
 					emit(fmt_case(if k % 2 == 0 { 1 } else { 2 }, &files), &mut out, &mut runner);
 				}
 			}
+			// an included file that has the base name of its includer, in a sub-directory
+			{
+				let files = vec![FileSpec{name: "main.asm".into(), text: true, data: b".addr 0x20000000;\n.du8 1;\n.include \"boot/main.asm\";\n.du8 3;\n".to_vec()},
+					FileSpec{name: "boot/main.asm".into(), text: true, data: b".du8 2;\n".to_vec()}];
+				emit(format!("{} W=20000000:010203", fmt_case(1, &files)), &mut out, &mut runner);
+				emit(format!("{} W=20000000:010203 rel=1", fmt_case(2, &files)), &mut out, &mut runner);
+			}
 			// random part
 			let n = if thorough { 50000 } else { 2400 };
 			for _ in 0..n
